@@ -115,4 +115,11 @@ def sortNat (l : List Nat) : List Nat := l.mergeSort (fun a b => decide (a ≤ b
 def dedup [DecidableEq α] (l : List α) : List α :=
   l.foldl (fun acc a => if a ∈ acc then acc else acc ++ [a]) []
 
+/-- `len(set(l) & set(r))` -/
+def interCount {α : Type} [DecidableEq α] (l r : List α) : Nat :=
+  ((dedup l).filter (fun t => decide (t ∈ r))).length
+
+/-- `len(set(l))` -/
+def setLen {α : Type} [DecidableEq α] (l : List α) : Nat := (dedup l).length
+
 end SSJ
